@@ -9,7 +9,7 @@ LEAN_TARGETS = ['LLTD.Props.C15']
 VARIANT = 'plain'
 EXHAUSTIVE = True
 RULE = ('every tier: all (state, input in -128..255 and boundary ints, elapsed in {0,t-1,t,t+1,10t}) single steps of '
-        'switch_state_session, plus seeded random event/time sequences over the session-event alphabet; '
+        'switch_state_session, all pairs of events with the clock moving on during the first one (`fsm stepj`: entry phase within the second x jump x gap around the timeout), plus seeded random event/time sequences over the session-event alphabet; '
         'non-trivial = the automaton changed state; distinct = distinct projected transcript')
 ASSUMPTIONS = ['clock values stay below 2^64 s and never run backwards']
 project = ident
@@ -33,12 +33,15 @@ def cells(X):
 
 def cases(rng, tier, X):
     out = cells(X)
+    out += auto.moving_clock_cells('sess', X['sessionStatesNo'], X['sessionTimeouts'], list(range(8)))
     n = 300 if tier == 'quick' else 20000
     for k in range(n):
         ops = ['fsm new 0 sess', 'clock %d' % rng.choice([0, 5000])]
         for _ in range(rng.randint(3, 40)):
             if rng.random() < 0.7:
                 ops.append('fsm step 0 %d' % rng.choice([-1, 0, 1, 2, 3, 4, 5, 6, 7, 2, 3, 4, 5, 1, 8, rng.randint(-5, 12)]))
+                if rng.random() < 0.2:
+                    ops[-1] = ops[-1].replace('fsm step', 'fsm stepj') + ' %d' % rng.choice([1, 500, 1000, 1001])
             else:
                 ops.append('clock %d' % rng.choice([0, 500, 999, 1000, 1001, 2000, 2001, 3000, rng.randint(0, 5000)]))
         out.append(('seq%d' % k, ops))
